@@ -47,14 +47,15 @@ var All = []*Prop{
 	},
 	{
 		ID:    "C01",
-		Rules: []*core.Rule{rules.PanicPayload, rules.ASTDispatch, rules.SelfAssert, rules.NilDesc, rules.Recover, rules.Classifier, rules.ReflectSafe},
+		Rules: []*core.Rule{rules.PanicPayload, rules.ASTDispatch, rules.SelfAssert, rules.NilDesc, rules.Recover, rules.Classifier, rules.ReflectSafe, rules.EscapeAgree},
 		Explanation: "Clauses decided: the engine's own ways of producing a non-documented panic are closed. " +
 			"R-PANICPAYLOAD classifies every panic(x) of the module (~500) by the static type of x: a type the boundary classifiers accept (derived from exceptionFromValue's case list, the uncatchableException implementers and compileAST on each run), a Value implementer, a re-panic of a recovered/classified value, a panic made unreachable by a preceding no-return call, or an internal assertion in the audited per-function table; a new string/error panic anywhere else is reported. " +
 			"R-ASTDISPATCH: every type switch over an interface of goja/ast whose default ends in an internal diagnostic covers every concrete ast type implementing the interface (go/types), up to an audited table of node types that the grammar only places in slots handled by the parent. " +
 			"R-SELFASSERT: every unchecked assertion X.self.(*Kind) is justified (built as that kind, previously asserted on a dominating edge, promiseResolve's verified result, or audited). " +
 			"R-NILDESC: optional PropertyDescriptor fields are never dereferenced without a nil test (inter-procedural dereference summary). " +
 			"R-RECOVER/R-CLASSIFIER (see C14): no recover swallows or misclassifies a payload. " +
-			"R-REFLECTSAFE: script operations on reflect-backed host objects never reach a panicking form of package reflect (FieldByIndex; Index beyond Len()) - see C13.",
+			"R-REFLECTSAFE: script operations on reflect-backed host objects never reach a panicking form of package reflect (FieldByIndex; Index beyond Len()) - see C13. " +
+			"R-ESCAPEAGREE: the lexer's measuring pass (scanEscape) and the decoder (parseStringLiteral) consume the same maximal number of digits for a legacy octal escape - the decoder panics on its own length self-check otherwise (seeded three times by independent agents).",
 		Technique:  "panic-operand typing with classifier sets derived from the code, no-return dominance, type-switch exhaustiveness over go/types, justified-assertion and nil-dereference rules with inter-procedural summaries",
 		DesignRef:  "DESIGN.md section 4, C01",
 		NotCovered: "Go runtime panics at arbitrary sites (index out of range, nil dereference other than the descriptor clause, failed assertions on values other than X.self), operand-stack balance of emitted bytecode (e.g. the dummy-mode break/try interaction), parser panics guarded by length precomputation: properties of run-time data",
